@@ -106,7 +106,7 @@ class RepSpec(netx.Spec):
         if self.phase != "run" or world.exception is not None:
             return []
         left = world.mon.get("left", [])
-        evs = [("replicate", a) for a in sorted(self.dep["agents"]) if a not in world.mon["replicate"] and a not in left]
+        evs = [("replicate", a) for a in sorted(self.dep.get("replicators", self.dep["agents"])) if a not in world.mon["replicate"] and a not in left]
         if self.leave and not left and world.mon["replicate"]:
             # one agent leaves at any moment once a replication has been requested
             evs += [("leave", a) for a in sorted(self.dep["agents"]) if self.leave in (True, a)]
@@ -171,7 +171,7 @@ class RepSpec(netx.Spec):
         dep, k = self.dep, self.dep["k"]
         done = world.mon.get("done", {})
         left = world.mon.get("left", [])
-        notdone = [a for a in dep["agents"] if a not in done and a not in left]
+        notdone = [a for a in dep.get("replicators", dep["agents"]) if a not in done and a not in left]
         if notdone:
             pending = {f"{s}->{d}": len(q) for (s, d), q in world.chans.items()}
             tag = "|after-an-agent-left" if left else ""
@@ -202,6 +202,8 @@ class RepSpec(netx.Spec):
                         return
             return
         for a, ad in dep["agents"].items():
+            if a not in done:
+                continue  # not asked to replicate in this deployment
             for c in ad["comps"]:
                 hosts = done[a].get(c, [])
                 if a in hosts or len(set(hosts)) != len(hosts) or len(hosts) > k or any(h not in dep["agents"] for h in hosts):
@@ -265,6 +267,16 @@ def deployments(tier):
     for k in (2,) if q else (2, 3):
         dep(f"equal-footprints-tight-k{k}", {"a0": 20, "a1": 9, "a2": 8}, same, edges_same, k)
         dep(f"equal-footprints-tight2-k{k}", {"a0": 20, "a1": 8, "a2": 8}, same, edges_same, k)
+    # a line of 4 agents, the first one owning TWO computations: its two replication tokens travel the same path, 2-3 hops deep,
+    # in every relative order (only a0 replicates: the interleavings of two token paths are few, all are explored)
+    line4 = [("c0", "c1"), ("c4", "c1"), ("c1", "c2"), ("c2", "c3")]
+    two4 = {"a0": {"c0": 1, "c4": 1}, "a1": {"c1": 1}, "a2": {"c2": 1}, "a3": {"c3": 1}}
+    for k in (2,) if q else (1, 2, 3):
+        dep(f"line4-two-tokens-k{k}", {"a0": 100, "a1": 100, "a2": 100, "a3": 100}, two4, line4, k)
+        out[-1]["replicators"] = ["a0"]
+        # hosting is expensive beyond the first hop: the tokens go back to the owner for a larger budget several times
+        dep(f"line4-two-tokens-costly-k{k}", {"a0": 100, "a1": 100, "a2": 100, "a3": 100}, two4, line4, k, hosting={"a2": {"c0": 5, "c4": 5}, "a3": {"c0": 5, "c4": 5}})
+        out[-1]["replicators"] = ["a0"]
     if not q:
         star4 = [("c0", "c1"), ("c0", "c2"), ("c0", "c3")]
         one4 = {"a0": {"c0": 1}, "a1": {"c1": 1}, "a2": {"c2": 3}, "a3": {"c3": 1}}
@@ -343,6 +355,8 @@ def run(ctx):
         small = len(d["agents"]) == 3 and (all(len(a["comps"]) == 1 for a in d["agents"].values()) or not ctx.quick)
         if ctx.quick and "decimal" in d["name"]:
             small = False  # 21000 states under all interleavings: canonical schedules in the quick tier
+        if "replicators" in d:
+            small = True
         if small:
             jobs.append((d, "all"))
             if d["name"] in LEAVE_DEPS_QUICK or (not ctx.quick and all(len(a["comps"]) == 1 for a in d["agents"].values())):
